@@ -57,7 +57,7 @@ const TEXTS: &[&str] = &["まぁ社長は火星猫だ", "まぁ良いだろう",
 const ANN: &[(&str, u8)] = &[("まぁ/副詞/マー 良い/形容詞 だろう", 1), ("ま-ぁ|社-長/名詞/シャチョー|は 火", 2), ("a/x/y/z b", 1), ("", 1), ("a  b", 1), ("a|", 2), ("\\", 1)];
 
 /// ops: a byte string; each op is decoded modulo the available choices
-fn run(w: &World, ops: &[u8], final_text: &str, final_pred: usize, fill: bool) -> Option<String> {
+fn run(w: &World, ops: &[u8], final_text: &str, final_pred: usize, fill: u8) -> Option<String> {
     let r = catch_unwind(AssertUnwindSafe(|| -> Option<String> {
         let (p, ptags, store) = &w.preds[final_pred % w.preds.len()];
         let mut used = Sentence::default();
@@ -78,10 +78,15 @@ fn run(w: &World, ops: &[u8], final_text: &str, final_pred: usize, fill: bool) -
         }
         if used.update_raw(final_text.to_string()).is_err() { return Some("final update_raw failed".into()); }
         p.predict(&mut used);
-        let do_fill = fill && *ptags;
+        let do_fill = fill != 0 && *ptags;
+        // fill = 2: every boundary is made a word boundary first, as a filter might (every character is a token then:
+        // most of them have no tag model, whatever the token that ended at their position in an earlier use)
+        let split_all = |s: &mut Sentence| for b in s.boundaries_mut().iter_mut() { *b = vaporetto::CharacterBoundary::WordBoundary; };
+        if fill == 2 { split_all(&mut used); }
         if do_fill { used.fill_tags(); }
         let mut fresh = Sentence::from_raw(final_text.to_string()).unwrap();
         p.predict(&mut fresh);
+        if fill == 2 { split_all(&mut fresh); }
         if do_fill { fresh.fill_tags(); }
         let a = observe(&used, do_fill && *store);
         let b = observe(&fresh, do_fill && *store);
@@ -92,8 +97,8 @@ fn run(w: &World, ops: &[u8], final_text: &str, final_pred: usize, fill: bool) -
 
 fn base_seed() -> u64 { std::env::var("VERIF_SEED").ok().and_then(|s| s.parse().ok()).unwrap_or(0) }
 
-fn arg_of(seed: u64, ops: &[u8], ft: usize, fp: usize, fill: bool) -> String {
-    format!("{}:{}:{}:{}:{}", seed, ops.iter().map(|b| format!("{:02x}", b)).collect::<String>(), ft, fp, fill as u8)
+fn arg_of(seed: u64, ops: &[u8], ft: usize, fp: usize, fill: u8) -> String {
+    format!("{}:{}:{}:{}:{}", seed, ops.iter().map(|b| format!("{:02x}", b)).collect::<String>(), ft, fp, fill)
 }
 
 pub fn search() -> Option<String> {
@@ -109,11 +114,15 @@ pub fn search() -> Option<String> {
     for _ in 0..(if crate::thorough() { 12000 } else { 1500 }) { let n = 3 + r.below(6); hist.push((0..n).map(|_| r.below(256) as u8).collect()); }
     for (i, h) in hist.iter().enumerate() {
         for ft in 0..TEXTS.len() {
-            let fp = (i + ft) % w.preds.len();
-            for fill in [false, true] {
-                crate::mark(&arg_of(seed, h, ft, fp, fill));
-                if let Some(what) = run(&w, h, TEXTS[ft], fp, fill) {
-                    return Some(desc(&arg_of(seed, h, ft, fp, fill), &what[..what.len().min(700)]));
+            // histories that end in predict + fill_tags (+ one more step) are followed by EVERY predictor, the others by one
+            let all = h.len() >= 3 && h[h.len() - 2] == 3 || h.len() == 2 && h[1] == 3;
+            let fps: Vec<usize> = if all { (0..w.preds.len()).collect() } else { vec![(i + ft) % w.preds.len()] };
+            for fp in fps {
+                for fill in [0u8, 1, 2] {
+                    crate::mark(&arg_of(seed, h, ft, fp, fill));
+                    if let Some(what) = run(&w, h, TEXTS[ft], fp, fill) {
+                        return Some(desc(&arg_of(seed, h, ft, fp, fill), &what[..what.len().min(700)]));
+                    }
                 }
             }
         }
@@ -126,5 +135,5 @@ pub fn replay(arg: &str) -> Option<String> {
     let seed: u64 = p[0].parse().ok()?;
     let ops: Vec<u8> = (0..p[1].len() / 2).map(|i| u8::from_str_radix(&p[1][2 * i..2 * i + 2], 16).unwrap()).collect();
     let w = world(seed);
-    run(&w, &ops, TEXTS[p[2].parse::<usize>().ok()?], p[3].parse().ok()?, p[4] == "1").map(|x| desc(arg, &x[..x.len().min(700)]))
+    run(&w, &ops, TEXTS[p[2].parse::<usize>().ok()?], p[3].parse().ok()?, p[4].parse().ok()?).map(|x| desc(arg, &x[..x.len().min(700)]))
 }
